@@ -515,7 +515,7 @@ compact_tuple_sketch<S, A> compact_tuple_sketch<S, A>::deserialize(std::istream&
   A alloc(allocator);
   std::vector<Entry, AllocEntry> entries(alloc);
   if (!is_empty) {
-    entries.reserve(num_entries);
+    entries.reserve(std::min<uint32_t>(num_entries, 1 << 12)); // the count is not backed by data yet
     std::unique_ptr<S, deleter_of_summaries> summary(alloc.allocate(1), deleter_of_summaries(1, false, allocator));
     for (size_t i = 0; i < num_entries; ++i) {
       const auto key = read<uint64_t>(is);
